@@ -331,6 +331,55 @@ theorem write_ref (hk : Function.Injective kname) (kinds : List Nat)
   · unfold mSet
     rw [if_pos hform]
 
+/-- **write of the class's own id attribute** (`x.ID = i`, i ≥ 0 — the mechanism model keeps ids in `idOf : Inst → Nat`):
+    accepted on both sides; the mechanism updates `idOf`, Spec the valuation, and the states correspond again — so the
+    referential attributes of the instances related to `x` read alike afterwards (`read_ref` applies to the new states) -/
+theorem write_id (hk : Function.Injective kname) (kinds : List Nat)
+    (R : RefinesA kname decl at_ sch ι s d st) (A : Pyx.Meta.AllInv sch s) {x : Nat} (hx : Pyx.Meta.live s x)
+    (hkin : s.kindOf x ∈ kinds) {name : String} {a : AttrDecl} {i : Int}
+    (hfa : (decl (s.kindOf x)).find? (fun a => a.name = name) = some a) (hnr : a.referential = false)
+    (hty : tyMatches a.ty (.int i) = true) (hform : Pyx.Meta.formalFrom (s.kindOf x) name 0 sch = [])
+    (hid : at_.idName (s.kindOf x) = some name) (hi : 0 ≤ i) :
+    ∃ st', setAttr (ctxOfA kname decl kinds sch) (ι x) name (.int i) st = .ok st' ∧
+      mSet sch at_ s d x name (.int i) = some ({ s with idOf := Pyx.Meta.upd s.idOf x i.toNat }, d) ∧
+      RefinesA kname decl at_ sch ι { s with idOf := Pyx.Meta.upd s.idOf x i.toNat } d st' := by
+  refine ⟨{ st with attr := fun j n => if j = ι x ∧ n = name then .int i else st.attr j n }, ?_, ?_, ?_⟩
+  · unfold setAttr
+    rw [(live_iff R.store A.pool hx.1).2 hx]
+    simp only [if_true]
+    rw [R.store.cls x hx.1, findAttr_ctxOfA hk decl sch _ kinds hkin, hfa]
+    simp only [hnr, Bool.false_eq_true, if_false, hty, if_true]
+  · unfold mSet
+    rw [if_neg (fun h => h hform), if_pos hid]
+    simp only [hi, if_true]
+  · have R0 : Refines kname ι s { st with attr := fun j n => if j = ι x ∧ n = name then .int i else st.attr j n } :=
+      refines_store_congr R.store rfl rfl rfl
+    refine ⟨⟨R0.cls, R0.below, R0.inj, R0.pool, R0.pairs, R0.nodup, R0.srcOrd, R0.tgtOrd⟩, ?_, ?_, R.nextId⟩
+    · intro y hy n hn
+      show (if ι y = ι x ∧ n = name then Val.int i else st.attr (ι y) n) = .int ((Pyx.Meta.upd s.idOf x i.toNat y : Nat) : Int)
+      by_cases hyx : y = x
+      · subst hyx
+        have hn' : n = name := by
+          have h1 : at_.idName (s.kindOf y) = some n := hn
+          rw [hid] at h1; exact (Option.some.inj h1).symm
+        subst hn'
+        simp only [and_self, if_true, Pyx.Meta.upd]
+        rw [Int.toNat_of_nonneg hi]
+      · have hne : ι y ≠ ι x := fun e => hyx (R.store.inj y x hy hx.1 e)
+        have hu : Pyx.Meta.upd s.idOf x i.toNat y = s.idOf y := Pyx.Meta.upd_other s.idOf i.toNat hyx
+        rw [hu]
+        simp only [hne, false_and, if_false]
+        exact R.idv y hy n hn
+    · intro y hy n hn hdn
+      show (if ι y = ι x ∧ n = name then Val.int i else st.attr (ι y) n) = d.vals y n
+      by_cases hc : ι y = ι x ∧ n = name
+      · exfalso
+        have hyx := R.store.inj y x hy hx.1 hc.1
+        have hn2 : isPlain sch at_ (s.kindOf y) n := hn
+        rw [hyx, hc.2] at hn2
+        exact hn2.2 hid
+      · rw [if_neg hc]; exact R.plain y hy n hn hdn
+
 /-! ### new: the defaults -/
 
 def isGenId (a : AttrDecl) : Bool := !a.referential && decide (a.ty = .uniqueId)
@@ -680,15 +729,17 @@ def specStepA (kname : Nat → String) (C : Ctx) (ι : Nat → Inst) (s : MState
     | .error _ => (ι, st)
 
 /-- the domain: a store operation as in `OpOk'` (new on a consistently declared kind); a write to a live instance of a
-    known kind, of a declared attribute that is either referential (rejected on both sides) or plain with a value of
-    the declared type -/
+    known kind, of a declared attribute that is either referential (rejected on both sides), or plain with a value of
+    the declared type, or the class's own id attribute with a non-negative integer (the model keeps ids as `Nat`) -/
 def OpOkA (decl : Nat → List AttrDecl) (at_ : Pyx.Meta.Attrs) (sch : MSchema) (kinds : List Nat) (s : MState) : AOp → Prop
   | .store (.new k h) => k ∈ kinds ∧ DeclOk decl at_ sch k ∧ h = (at_.idName k).isSome
   | .store op => OpOk' kinds s op
   | .set x name v => Pyx.Meta.live s x ∧ s.kindOf x ∈ kinds ∧
       ∃ a, (decl (s.kindOf x)).find? (fun a => a.name = name) = some a ∧
         ((a.referential = true ∧ Pyx.Meta.formalFrom (s.kindOf x) name 0 sch ≠ []) ∨
-         (a.referential = false ∧ isPlain sch at_ (s.kindOf x) name ∧ tyMatches a.ty v = true))
+         (a.referential = false ∧ isPlain sch at_ (s.kindOf x) name ∧ tyMatches a.ty v = true) ∨
+         (a.referential = false ∧ Pyx.Meta.formalFrom (s.kindOf x) name 0 sch = [] ∧
+            at_.idName (s.kindOf x) = some name ∧ tyMatches a.ty v = true ∧ ∃ i : Int, v = .int i ∧ 0 ≤ i))
 
 theorem opOk'_of_opOkA {kinds : List Nat} {s : MState} {op : Pyx.Meta.Op}
     (h : OpOkA decl at_ sch kinds s (.store op)) : OpOk' kinds s op := by
@@ -712,11 +763,14 @@ theorem stepA_refines (hk : Function.Injective kname) (kinds : List Nat) (hok : 
   cases op with
   | set x name v =>
     obtain ⟨hx, hkin, a, hfa, hcase⟩ := hop
-    rcases hcase with ⟨hr, hform⟩ | ⟨hnr, hpl, hty⟩
+    rcases hcase with ⟨hr, hform⟩ | ⟨hnr, hpl, hty⟩ | ⟨hnr, hform, hid, hty, i, rfl, hi⟩
     · obtain ⟨⟨e, he⟩, hm⟩ := write_ref hk kinds R A hx hkin v hfa hr hform
       simp only [specStepA, mStepA, he, hm]
       exact R
     · obtain ⟨st', d', h1, h2, h3⟩ := write_plain hk kinds R A hx hkin hfa hnr hty hpl
+      simp only [specStepA, mStepA, h1, h2]
+      exact h3
+    · obtain ⟨st', h1, h2, h3⟩ := write_id hk kinds R A hx hkin hfa hnr hty hform hid hi
       simp only [specStepA, mStepA, h1, h2]
       exact h3
   | store op =>
@@ -791,12 +845,17 @@ theorem allInv_stepA (hok : Pyx.Meta.SchemaOk sch) (kinds : List Nat) (A : Pyx.M
     exact Pyx.Meta.step_allInv hok A op (opOk_of_opOk' (opOk'_of_opOkA hop))
   | set x name v =>
     obtain ⟨hx, hkin, a, hfa, hcase⟩ := hop
-    rcases hcase with ⟨hr, hform⟩ | ⟨hnr, hpl, hty⟩
+    rcases hcase with ⟨hr, hform⟩ | ⟨hnr, hpl, hty⟩ | ⟨hnr, hform, hid, hty, i, rfl, hi⟩
     · have : mSet sch at_ s d x name v = none := by unfold mSet; rw [if_pos hform]
       simp only [mStepA, this]; exact A
     · have : mSet sch at_ s d x name v = some (s, { vals := fun y n => if y = x ∧ n = name then v else d.vals y n }) := by
         unfold mSet; rw [if_neg (fun h => h hpl.1), if_neg hpl.2]
       simp only [mStepA, this]; exact A
+    · have : mSet sch at_ s d x name (.int i) = some ({ s with idOf := Pyx.Meta.upd s.idOf x i.toNat }, d) := by
+        unfold mSet; rw [if_neg (fun h => h hform), if_pos hid]; simp only [hi, if_true]
+      simp only [mStepA, this]
+      -- none of the invariants looks at `idOf`
+      exact ⟨A.inv, A.typed, A.liveOnly, A.pool⟩
 
 theorem runA_refines_from (hk : Function.Injective kname) (kinds : List Nat) (hok : Pyx.Meta.SchemaOk sch) :
     ∀ (ops : List AOp) (s : MState) (d : MDict) (ι : Nat → Inst) (st : State),
